@@ -452,3 +452,52 @@ func shortDevs(d []string) []string {
 	}
 	return out
 }
+
+// ClaimHistory refines the where-tag of the devices-differ-from-api clause over the events of ONE session. CheckClaims
+// is stateless: it tags a deviation by where the pod's real device is in the view at that moment. A deviation that
+// begins as "api-device-given-to-other-claim" (the victim was re-placed on its node while the preemptor of the same
+// scenario held its device, so it was shown on another free device) is sticky for the rest of the session: the other
+// claim may be undone or evicted again a few steps later, and the victim itself may be evicted and re-placed again -
+// every evict operation saves, and every un-evict restores, the allocation the task had, i.e. the permuted one. The
+// same incident then reads "api-device-free-in-view". A report for a claim whose deviating devices in the view are
+// the ones it was given in such an incident earlier in the session keeps that tag (suffix "-earlier"); a deviation
+// that is first seen with the real device free in the view (the view lost the allocation: the F3 shape), or that
+// shows other devices than the incident did, keeps "api-device-free-in-view". Nothing is dropped, only classified.
+type ClaimHistory struct {
+	permuted map[string]map[string]bool // claim -> views ("... view says [devices]") seen as given-to-other-claim
+}
+
+const (
+	tagGiven = "devices-differ-from-api:api-device-given-to-other-claim:"
+	tagFree  = "devices-differ-from-api:api-device-free-in-view:"
+)
+
+// Classify rewrites the tags of one CheckClaims result and updates the history.
+func (h *ClaimHistory) Classify(msgs []string) []string {
+	if h.permuted == nil {
+		h.permuted = map[string]map[string]bool{}
+	}
+	out := make([]string, 0, len(msgs))
+	for _, m := range msgs {
+		f := strings.Fields(m)
+		if len(f) < 3 || f[0] != "claim" || !strings.HasPrefix(f[2], "devices-differ-from-api:api-device-") {
+			out = append(out, m)
+			continue
+		}
+		k, view := f[1], ""
+		if i := strings.LastIndex(m, "the scheduler's view says "); i >= 0 {
+			view = m[i:]
+		}
+		switch {
+		case strings.HasPrefix(f[2], tagGiven):
+			if h.permuted[k] == nil {
+				h.permuted[k] = map[string]bool{}
+			}
+			h.permuted[k][view] = true
+		case strings.HasPrefix(f[2], tagFree) && view != "" && h.permuted[k][view]:
+			m = strings.Replace(m, tagFree, "devices-differ-from-api:api-device-given-to-other-claim-earlier:", 1)
+		}
+		out = append(out, m)
+	}
+	return out
+}
